@@ -4,7 +4,7 @@ import shutil
 import struct
 import tempfile
 
-from vlib import basic
+from vlib import basic, translated
 
 LEVEL = 'proof'
 RULE = ('one case = one step of a random history; histories of OPEN (record lengths 1..128, boundary-dense, three '
@@ -19,7 +19,12 @@ EXPLANATION = ('theorems (PcbV.Props.C25) by induction over arbitrary FIELD-writ
                'correspondence: error number, LOC, LOF, EOF, the values of six string variables after every step '
                'and the host file bytes at the end, against the Lean model; oracle: a dict record -> bytes with a '
                'high-water mark per open file and a private copy of each FIELD buffer, judged by the statement text')
-TRUSTED_BASE = ['model PcbV.Model.RandFile is a hand transcription of diskfiles.py:RandomFile/FieldFile, '
+TRUSTED_BASE = ['source tie: the record arithmetic of RandomFile.eof, _set_record_pos and put is translated mechanically from '
+                'the current Python AST (PcbV.Gen.Translated.rfEof/rfSeekOffset/rfSeekRecpos/rfPutOffset, gen/py2lean.py), '
+                'proved equal to the model (translated_rfEof_eq, translated_rfSeek_eq, translated_rfPutOffset_eq) and '
+                'compared with a real RandomFile over a recording host file (vlib/translated.py: check_randfile); '
+                'the translator itself is trusted only as far as that comparison reaches',
+                'model PcbV.Model.RandFile is a hand transcription of diskfiles.py:RandomFile/FieldFile, '
                 'files.py:_check_pos/open_/field_/get_/put_ and memory.py:Field validated by this correspondence',
                 'host file system: a write behind the end of a file zero-fills the gap (POSIX); only the original '
                 '(pre-86ee4641) put relied on it']
@@ -639,6 +644,7 @@ def run(ctx):
         histories(ctx, impl, 260 if ctx.quick else 5000)
     finally:
         impl.close()
+    translated.check_randfile(ctx)
 
 
 def replay(ctx, payload):
